@@ -19,6 +19,11 @@ let rec dec_of_n (x : n) : string =
   let q = N.div x ten and d = int_of_n (N.modulo x ten) in
   (if q = N0 then "" else dec_of_n q) ^ string_of_int d
 
+let z_of_dec (s : string) : z =
+  if s <> "" && s.[0] = '-' then (match n_of_dec (String.sub s 1 (String.length s - 1)) with N0 -> Z0 | Npos p -> Zneg p)
+  else (match n_of_dec s with N0 -> Z0 | Npos p -> Zpos p)
+let dec_of_z (x : z) : string = match x with Z0 -> "0" | Zpos p -> dec_of_n (Npos p) | Zneg p -> "-" ^ dec_of_n (Npos p)
+
 let bytes_of_hex (h : string) : n list =
   let h = if h = "-" then "" else h in
   let l = String.length h / 2 in
@@ -47,28 +52,61 @@ let state_name = function
   | WaitingForAuth -> "WaitingForAuth" | WaitingForData -> "WaitingForData" | WaitingForBegin -> "WaitingForBegin"
   | Authenticated -> "Authenticated" | NeedDisconnect -> "NeedDisconnect" | Crashed -> "Crashed"
 
+(* the keyring file as _dbus_keyring_reload saves it *)
+let render_key (k : key) : n list =
+  bytes_of_string (dec_of_n k.k_id ^ " " ^ dec_of_z k.k_time ^ " ") @ hex_encode k.k_secret
+
+(* world of one connection / one keyring object: the file changes only when this process saves it.
+   toks: now= file=<hexline>/... (_ = empty line) dirp0= dirp= newkeys=<id:hexsecret>/...   n = attempts to prepare *)
+let world_of_toks toks (n : int) : kworld =
+  let now = z_of_dec (match field toks "now" with "-" -> "0" | s -> s) in
+  let file0 = List.map (fun h -> if h = "_" then [] else bytes_of_hex h) (split_on '/' (field toks "file")) in
+  let newkeys = Array.of_list (List.map (fun kv -> match String.split_on_char ':' kv with
+      | [k; v] -> (n_of_dec k, bytes_of_hex v) | _ -> failwith "newkeys") (split_on '/' (field toks "newkeys"))) in
+  (* beyond what the implementation showed the random source still works (a key / challenge the implementation did not
+     produce must not be explained away as a failing random source) *)
+  let newkey j = if j < Array.length newkeys then newkeys.(j)
+    else (n_of_int (0x5a5a5a0 + j), List.init 24 (fun _ -> n_of_int 0x5a)) in
+  let dirp0 = field toks "dirp0" <> "0" and dirp = field toks "dirp" <> "0" in
+  let files : (int, n list list) Hashtbl.t = Hashtbl.create 8 in
+  let assign : (int, int) Hashtbl.t = Hashtbl.create 8 in
+  Hashtbl.replace files 0 file0;
+  let rec file_at i = match Hashtbl.find_opt files i with Some f -> f | None -> if i <= 0 then file0 else file_at (i - 1) in
+  let w = { w_now = (fun _ -> now); w_file = (fun k -> file_at (int_of_n k));
+            w_dir_private0 = dirp0; w_dir_private = (fun _ -> dirp); w_lock_ok = (fun _ -> true); w_save_ok = (fun _ -> true);
+            w_new_ids = (fun k -> match Hashtbl.find_opt assign (int_of_n k) with Some j -> [fst (newkey j)] | None -> []);
+            w_new_secret = (fun k -> match Hashtbl.find_opt assign (int_of_n k) with Some j -> Some (snd (newkey j)) | None -> None) } in
+  let next = ref 0 in
+  let keys = ref (keyring_new w) in
+  for k = 0 to n - 1 do
+    Hashtbl.replace assign k !next;
+    let (keys', _) = get_best_key w (n_of_int k) !keys in
+    if List.length keys' <> List.length !keys || keys' != !keys then begin
+      (* a reload with add_new happened and was saved *)
+      if List.exists (fun kk -> kk.k_id = fst (newkey !next)) keys'
+         && not (List.exists (fun kk -> kk.k_id = fst (newkey !next)) !keys) then incr next;
+      Hashtbl.replace files (k + 1) (List.map render_key keys')
+    end;
+    keys := keys'
+  done;
+  w
+
 let env_of_toks toks : env =
   let users = List.map (fun kv -> match String.split_on_char ':' kv with
       | [k; v] -> (bytes_of_hex k, n_of_dec v) | _ -> failwith "users") (split_on '/' (field toks "users")) in
-  let cookies = List.map (fun kv -> match String.split_on_char ':' kv with
-      | [k; v] -> (n_of_dec k, bytes_of_string v) | _ -> failwith "cookies") (split_on '/' (field toks "cookies")) in
-  let best = Array.of_list (List.map optn (split_on '/' (field toks "best"))) in
   let chals = Array.of_list (List.map (fun h -> if h = "x" then None else Some (bytes_of_hex h)) (split_on '/' (field toks "chals"))) in
   let gids = match field toks "gids" with "-" -> None | g -> Some (List.map n_of_dec (String.split_on_char '.' g)) in
   let mechs = match field toks "mechs" with
     | "*" -> None | "-" -> Some [] | m -> Some (List.map bytes_of_string (String.split_on_char '.' m)) in
-  { e_sock = { c_uid = optn (field toks "uid"); c_pid = optn (field toks "pid"); c_gids = gids };
-    e_allowed = mechs;
-    e_guid = bytes_of_string "feedfacefeedfacefeedfacefeedface";
-    e_fd_possible = (field toks "fdp" = "1");
-    e_asserts = (field toks "asserts" <> "0");
-    e_process_uid = (match field toks "puid" with "-" -> N0 | s -> n_of_dec s);
-    e_userdb = (fun name -> List.assoc_opt name users);
-    e_context = (match field toks "ctx" with "-" -> default_context | h -> bytes_of_hex h);
-    e_keyring_ok = (field toks "kok" <> "0");
-    e_best_key = (fun k -> let i = int_of_n k in if i < Array.length best then best.(i) else None);
-    e_cookie = (fun id -> match List.assoc_opt id cookies with Some c -> c | None -> []);
-    e_challenge = (fun k -> let i = int_of_n k in if i < Array.length chals then chals.(i) else None) }
+  let nsteps = List.length (String.split_on_char ',' (field toks "steps")) + List.length (split_on '/' (field toks "lines")) + 1 in
+  let w = world_of_toks toks nsteps in
+  env_of_world w
+    { c_uid = optn (field toks "uid"); c_pid = optn (field toks "pid"); c_gids = gids }
+    mechs (bytes_of_string "feedfacefeedfacefeedfacefeedface") (field toks "fdp" = "1") (field toks "asserts" <> "0")
+    (match field toks "puid" with "-" -> N0 | s -> n_of_dec s)
+    (fun name -> List.assoc_opt name users)
+    (match field toks "ctx" with "-" -> default_context | h -> bytes_of_hex h)
+    (fun k -> let i = int_of_n k in if i < Array.length chals then chals.(i) else Some (List.init 16 (fun _ -> n_of_int 0x5a)))
 
 let creds_str (c : creds) =
   let o = function None -> "-" | Some x -> dec_of_n x in
@@ -132,6 +170,28 @@ let () =
         | SP_WaitingForBegin _ -> "WaitingForBegin" | SP_Authenticated w -> "Authenticated:" ^ creds_str w | SP_Disconnect -> "Disconnect" in
       Buffer.add_string buf ("end " ^ ph ^ " rej=" ^ dec_of_n !sp.sp_rejects ^ " fd=" ^ (if !sp.sp_fd then "1" else "0") ^ " oddhex=" ^ string_of_int !oddhex ^ " stop=" ^ string_of_int !stop);
       Buffer.contents buf);
+  (* keyringm now= ctx= file= dirp0= dirp= newkeys= ops=B,H<id>,...  (same output as the harness, without keyfile) *)
+  reg "keyringm" (fun toks ->
+      let ops = split_on ',' (field toks "ops") in
+      let ctx = (match field toks "ctx" with "-" -> default_context | h -> bytes_of_hex h) in
+      if not (validate_context ctx) then "new=0"
+      else begin
+        let w = world_of_toks toks (List.length ops + 1) in
+        let buf = Buffer.create 64 in
+        Buffer.add_string buf "new=1";
+        let keys = ref (keyring_new w) and k = ref 0 in
+        List.iter (fun op ->
+            if op = "B" then begin
+              let (keys', best) = get_best_key w (n_of_int !k) !keys in
+              keys := keys'; incr k;
+              Buffer.add_string buf (" B:" ^ (match best with Some id -> dec_of_n id | None -> "-1"))
+            end else if op <> "" && op.[0] = 'H' then begin
+              let hk = get_hex_key !keys (n_of_dec (String.sub op 1 (String.length op - 1))) in
+              Buffer.add_string buf (" H:" ^ (if hk = [] then "-" else String.concat "" (List.map (fun b -> String.make 1 (Char.chr (int_of_n b land 255))) hk)))
+            end) ops;
+        Buffer.add_string buf (" keys=" ^ (String.concat "/" (List.map (fun kk -> dec_of_n kk.k_id ^ ":" ^ hex_of_bytes kk.k_secret) !keys)));
+        Buffer.contents buf
+      end);
   reg "sha1m" (fun [h] -> String.concat "" (List.map (fun b -> String.make 1 (Char.chr (int_of_n b))) (hex_encode (sha1 (bytes_of_hex h)))));
   reg "hexdecm" (fun [h] -> let (d, e) = hex_decode (bytes_of_hex h) in string_of_int (int_of_n e) ^ " " ^ hex_of_bytes d);
   reg "uidstrm" (fun [h] -> match parse_ulong (bytes_of_hex h) with
